@@ -433,7 +433,13 @@ func runJob(j job, ctx *hcl.EvalContext, rep *hv.Report, cf *hv.CaseFile) {
 		if j.pert == "conforming" && !full.panicked {
 			switch {
 			case full.errs > 0 && !j.exp.errExp && j.exp.ok:
-				fail("conforming-body-rejected", fmt.Sprintf("Decode reports: %v", full.diags))
+				kind := "conforming-body-rejected"
+				if kinds["blockmap(multi-label)"] && hasSummary(full.diags, "Unconsistent argument types") {
+					// the mistyped empty map of a multi-label BlockMapSpec next to a
+					// non-empty one under a BlockList/BlockSet: element types differ
+					kind = "blockmap-multilabel-empty-type"
+				}
+				fail(kind, fmt.Sprintf("Decode reports: %v", full.diags))
 			case full.errs == 0 && j.exp.ok && !j.exp.errExp:
 				if !full.val.RawEquals(j.exp.val) {
 					kind := "value-differs"
